@@ -120,6 +120,272 @@ theorem count_kept_labels [DecidableEq L] (rows : List (L × List β)) (hnd : (r
         exact hne e.symm
       omega
 
+/-! ### the multicategorical pipeline -/
+
+/-- the indices the mapper keeps for one cell: every token of the cell's set that the index knows -/
+def tokenIndices (cats : List Key) (c : Cell F) : List Int :=
+  (splitBySep c).filterMap (Pd.lookup (multicatIndex cats))
+
+theorem merged_rows [DecidableEq L] (cats : List Key) (ser : Pd.Series L (Cell F)) :
+    Pd.dropna (Pd.mergeLeft (Pd.explode (ser.map fun (l, c) => (l, splitBySep c))) (multicatIndex cats)) =
+      ser.flatMap fun p => (splitBySep p.2).filterMap fun t =>
+        (Pd.lookup (multicatIndex cats) t).map fun i => (p.1, t, i) := by
+  induction ser with
+  | nil => rfl
+  | cons p rest ih =>
+    obtain ⟨l, c⟩ := p
+    simp only [Pd.dropna, Pd.mergeLeft, Pd.explode] at ih ⊢
+    simp only [List.map_cons, List.flatMap_cons, List.map_append, List.filterMap_append]
+    rw [ih]
+    congr 1
+    cases hs : splitBySep c with
+    | nil => simp
+    | cons t ts =>
+      simp only [List.isEmpty_cons, Bool.false_eq_true, if_false, List.map_map, List.filterMap_map]
+      apply List.filterMap_congr
+      intro x _
+      simp only [Function.comp, Option.bind_some]
+      cases Pd.lookup (multicatIndex cats) x <;> rfl
+
+theorem kept_labels (g : Key → Option Int) (l : L) (ts : List Key) :
+    ((ts.filterMap fun t => (g t).map fun i => (l, t, i)).map (·.1)) = (ts.filterMap g).map fun _ => l := by
+  induction ts with
+  | nil => rfl
+  | cons t ts ih =>
+    simp only [List.filterMap_cons]
+    cases g t <;> simp [ih]
+
+theorem kept_values (g : Key → Option Int) (l : L) (ts : List Key) :
+    ((ts.filterMap fun t => (g t).map fun i => (l, t, i)).map fun x => (Val.int x.2.2 : Val F)) =
+      (ts.filterMap g).map Val.int := by
+  induction ts with
+  | nil => rfl
+  | cons t ts ih =>
+    simp only [List.filterMap_cons]
+    cases g t <;> simp [ih]
+
+/-- explode / merge / dropna / per-label counts / reindex / cumsum over ANY duplicate-free labelling
+    stores exactly the per-row kept indices, in row order -/
+theorem multicatPipeline_nodup [DecidableEq L] (cats : List Key) (ser : Pd.Series L (Cell F))
+    (hnd : (ser.map (·.1)).Nodup) :
+    multicatPipeline cats ser = mntOfCol (ser.map fun p => (tokenIndices cats p.2).map (Val.int : Int → Val F)) := by
+  have hm := merged_rows cats ser
+  simp only [multicatPipeline, mntOfCol]
+  rw [hm, reindex_valueCounts, cumsum_zero_cons]
+  have hlab : ((ser.flatMap fun p => (splitBySep p.2).filterMap fun t =>
+        (Pd.lookup (multicatIndex cats) t).map fun i => (p.1, t, i)).map (·.1)) =
+      ((ser.map fun p => (p.1, tokenIndices cats p.2)).flatMap fun q => q.2.map fun _ => q.1) := by
+    rw [List.map_flatMap, List.flatMap_map]
+    apply List.flatMap_congr
+    intro p _
+    exact kept_labels _ _ _
+  have hcnt := count_kept_labels (ser.map fun p => (p.1, tokenIndices cats p.2))
+    (by rw [List.map_map]; exact hnd)
+  congr 1
+  · simp
+  · rw [List.map_flatMap, List.flatMap_def]
+    congr 1
+    apply List.map_congr_left
+    intro p _
+    exact kept_values _ _ _
+  · congr 1
+    rw [hlab]
+    rw [List.map_map, List.map_map] at hcnt
+    rw [List.map_map, List.map_map]
+    apply congrArg cumsum
+    apply List.map_congr_left
+    intro p hp
+    have := List.map_inj_left.mp hcnt p hp
+    simpa [Function.comp] using this
+
+theorem resetIndex_labels (s : Pd.Series L α) : (Pd.resetIndex s).map (·.1) = List.range s.length := by
+  simp only [Pd.resetIndex]
+  rw [List.map_fst_zip] <;> simp
+
+theorem resetIndex_values (s : Pd.Series L α) : (Pd.resetIndex s).map (·.2) = s.map (·.2) := by
+  simp only [Pd.resetIndex]
+  rw [List.map_snd_zip] <;> simp
+
+theorem zip_map_snd (labels : List L) (cells : List α) (h : labels.length = cells.length) :
+    (labels.zip cells).map (·.2) = cells := by
+  rw [List.map_snd_zip]; omega
+
+/-- the mapper with the fix: whatever the caller's labels (duplicates, strings, …) -/
+theorem multicatForward_eq (cats : List Key) (labels : List L) (cells : List (Cell F))
+    (h : labels.length = cells.length) :
+    multicatForward cats labels cells =
+      mntOfCol (cells.map fun c => (tokenIndices cats c).map (Val.int : Int → Val F)) := by
+  unfold multicatForward
+  rw [multicatPipeline_nodup cats _ (by rw [resetIndex_labels]; exact List.nodup_range)]
+  congr 1
+  have : (Pd.resetIndex (labels.zip cells)).map (fun p => (tokenIndices cats p.2).map (Val.int : Int → Val F)) =
+      ((Pd.resetIndex (labels.zip cells)).map (·.2)).map
+        fun c => (tokenIndices cats c).map (Val.int : Int → Val F) := by
+    simp [List.map_map, Function.comp]
+  rw [this, resetIndex_values, zip_map_snd labels cells h]
+
+/-! ### category lookup = position in the ordered list -/
+
+theorem find_zipIdx (cats : List Key) (t : Key) (k : Nat) :
+    ((cats.zipIdx k).find? fun p => p.1 == t) = (cats.findIdx? (· == t)).map fun i => (t, i + k) := by
+  induction cats generalizing k with
+  | nil => rfl
+  | cons c cs ih =>
+    simp only [List.zipIdx_cons, List.find?_cons, List.findIdx?_cons]
+    by_cases h : c = t
+    · subst h; simp
+    · have hb : (c == t) = false := by simpa using h
+      simp only [hb, Bool.false_eq_true, if_false]
+      rw [ih (k + 1)]
+      cases cs.findIdx? (· == t) <;> simp; omega
+
+theorem lookup_zipIdx (cats : List Key) (t : Key) : Pd.lookup cats.zipIdx t = catPos cats t := by
+  simp only [Pd.lookup, catPos, find_zipIdx cats t 0]
+  cases cats.findIdx? (· == t) <;> simp
+
+theorem lookup_multicatIndex (cats : List Key) (t : Key) :
+    Pd.lookup (multicatIndex cats) t =
+      match catPos cats t with
+      | some i => some (i : Int)
+      | none => if missingTok = t then some (-1) else none := by
+  simp only [Pd.lookup, multicatIndex, List.find?_append, List.find?_map]
+  have h := find_zipIdx cats t 0
+  have hf : ((fun p : Key × Int => p.1 == t) ∘ fun x : Key × Nat => (x.1, (x.2 : Int))) = fun p => p.1 == t := by
+    funext p; rfl
+  rw [hf, h]
+  simp only [catPos]
+  cases cats.findIdx? (· == t) with
+  | some i => simp
+  | none =>
+    by_cases hm : missingTok = t
+    · simp [hm]
+    · have hb : (missingTok == t) = false := by simpa using hm
+      simp [hm, hb, List.find?_cons]
+
+/-! ### each mapper output holds, row by row, `encodeCell` -/
+
+theorem categoricalForward_eq (cfg : ColCfg F) (labels : List L) (cells : List (Cell F))
+    (h : labels.length = cells.length) :
+    categoricalForward cfg.cats labels cells = cells.map (encodeCell cfg .categorical) := by
+  simp only [categoricalForward, Pd.mergeLeft, List.map_map]
+  have hz : ∀ (ls : List L) (cs : List (Cell F)), ls.length = cs.length →
+      (ls.zip (cs.map cellKey)).map ((fun x : L × Option Key × Option Nat =>
+          match x with
+          | (_, _, idx) => match idx with
+            | some i => [(Val.int i : Val F)]
+            | none => [Val.int (-1)]) ∘
+        fun x : L × Option Key => (x.1, x.2, x.2.bind (Pd.lookup cfg.cats.zipIdx))) =
+      cs.map (encodeCell cfg .categorical) := by
+    intro ls
+    induction ls with
+    | nil => intro cs hl; cases cs <;> simp_all
+    | cons l ls ih =>
+      intro cs hl
+      cases cs with
+      | nil => simp at hl
+      | cons c cs =>
+        simp only [List.map_cons, List.zip_cons_cons]
+        rw [ih cs (by simpa using hl)]
+        congr 1
+        cases c <;> simp [cellKey, encodeCell, Function.comp, lookup_zipIdx] <;>
+          (rename_i k; cases catPos cfg.cats k <;> simp)
+  exact hz labels cells h
+
+theorem flatMap_filter_nonempty (cells : List (Cell F)) :
+    (cells.filter fun c => (seqVals c).length != 0).flatMap seqVals = (cells.map seqVals).flatten := by
+  induction cells with
+  | nil => rfl
+  | cons c cs ih =>
+    simp only [List.filter_cons, List.map_cons, List.flatten_cons]
+    by_cases h : (seqVals c).length = 0
+    · have : seqVals c = [] := List.length_eq_zero_iff.mp h
+      simp [h, this, ih]
+    · simp [h, ih]
+
+theorem sequenceForward_eq (cells : List (Cell F)) :
+    sequenceForward cells = mntOfCol (cells.map seqVals) := by
+  simp only [sequenceForward, mntOfCol, cumsum_zero_cons, flatMap_filter_nonempty, List.map_map, List.length_map]
+  rfl
+
+theorem catPos_none_of_not_mem (cats : List Key) (t : Key) (h : t ∉ cats) : catPos cats t = none := by
+  simp only [catPos, List.findIdx?_eq_none_iff]
+  intro x hx
+  simp only [beq_iff_eq]
+  intro e; subst e; exact h hx
+
+theorem tokenIndices_eq_encode (cfg : ColCfg F) (c : Cell F) (hm : missingTok ∉ cfg.cats)
+    (ht : ∀ ts, c = .toks ts → missingTok ∉ ts) :
+    (tokenIndices cfg.cats c).map (Val.int : Int → Val F) = encodeCell cfg .multicategorical c := by
+  cases c with
+  | missing =>
+    simp [tokenIndices, splitBySep, encodeCell, lookup_multicatIndex, catPos_none_of_not_mem _ _ hm]
+  | toks ts =>
+    simp only [tokenIndices, splitBySep, encodeCell, List.map_filterMap]
+    apply List.filterMap_congr
+    intro t htm
+    have hne : ¬ missingTok = t := by
+      intro e
+      have : t ∈ ts := List.mem_eraseDups.mp htm
+      exact ht ts rfl (e ▸ this)
+    rw [lookup_multicatIndex]
+    cases catPos cfg.cats t <;> simp [hne]
+  | _ => simp [tokenIndices, splitBySep, encodeCell]
+
+theorem find_not_missing (cells : List (Cell F)) (w : Nat)
+    (hex : ∃ c ∈ cells, c.isMissing = false)
+    (hw : ∀ c ∈ cells, c.isMissing = false → (cellVec c).length = w) :
+    (match cells.find? (fun c => !c.isMissing) with
+      | some c => (cellVec c).length
+      | none => 0) = w := by
+  cases hf : cells.find? (fun c => !c.isMissing) with
+  | some c =>
+    have hc := List.mem_of_find?_eq_some hf
+    have hp := List.find?_some hf
+    simp only [Bool.not_eq_true'] at hp
+    simpa using hw c hc hp
+  | none =>
+    obtain ⟨c, hc, hm⟩ := hex
+    have := List.find?_eq_none.mp hf c hc
+    simp [hm] at this
+
+/-- Every mapper output holds, row by row, the specification `encodeCell` of the raw cell. -/
+theorem forward_cells (cfg : ColCfg F) (s : Stype) (labels : List L) (cells : List (Cell F))
+    (h : labels.length = cells.length) (hwf : ColWF cfg s cells) :
+    (forward cfg s labels cells).cells = cells.map (encodeCell cfg s) := by
+  obtain ⟨hs, hmc, hemb⟩ := hwf
+  cases s with
+  | numerical =>
+    simp only [forward, ColOut.cells, numericalForward]
+    apply List.map_congr_left
+    intro c _
+    cases c <;> rfl
+  | categorical => simp only [forward, ColOut.cells, categoricalForward_eq cfg labels cells h]
+  | multicategorical =>
+    obtain ⟨hm, ht⟩ := hmc rfl
+    simp only [forward, multicatForward_eq cfg.cats labels cells h, cells_mntOfCol]
+    apply List.map_congr_left
+    intro c hc
+    exact tokenIndices_eq_encode cfg c hm (fun ts e => ht ts (e ▸ hc))
+  | sequence_numerical =>
+    simp only [forward, sequenceForward_eq, cells_mntOfCol]
+    apply List.map_congr_left
+    intro c _
+    cases c <;> rfl
+  | timestamp =>
+    simp only [forward, ColOut.cells, timestampForward]
+    apply List.map_congr_left
+    intro c _
+    cases c <;> rfl
+  | embedding =>
+    obtain ⟨hex, hw⟩ := hemb rfl
+    simp only [forward, ColOut.cells, embeddingForward, metOfRows, find_not_missing cells cfg.embDim hex hw]
+    apply List.map_congr_left
+    intro c _
+    cases c <;> rfl
+  | text_embedded => simp only [forward, ColOut.cells, embedderForward, metOfRows]; rfl
+  | image_embedded => simp only [forward, ColOut.cells, embedderForward, metOfRows]; rfl
+  | text_tokenized => exact absurd rfl hs
+
 end Mat
 
 end TFVerif
